@@ -9,7 +9,7 @@ ID = "C17"
 LEVEL = "exploration"
 RULE = (
     "seeded @async_generator() bodies of up to 12 operations, each either an await (a batch item, a child task, a "
-    "constant future, or a list/tuple of 1-3 of them) or a Value (also instances of a Value subclass); bodies with awaits after the last Value, with no "
+    "constant future, a list/tuple/dict of 0-3 of them - empty containers included - or a bare None) or a Value (also instances of a Value subclass); bodies with awaits after the last Value, with no "
     "Values, empty bodies, and bodies that re-yield the Values of a nested async generator. For each body: "
     "list_of_generator == the Values in program order; take_first(gen, n) for every n in 0..len+2 == the first n and "
     "the body's own operation counter shows nothing beyond the n-th Value was executed; two successive take_first "
@@ -32,8 +32,8 @@ def make_body(rnd, allow_nested=True):
             v += 1  # the first Value is 0: falsy values must be delivered like any other
             ops.append(["value", v, rnd.random() < 0.3])
         elif r < 0.9 or not allow_nested:
-            shape = rnd.choice(["one", "one", "list", "tuple"])
-            k = 1 if shape == "one" else rnd.randint(1, 3)
+            shape = rnd.choice(["one", "one", "list", "tuple", "list", "tuple", "dict", "none"])
+            k = 1 if shape == "one" else (0 if shape == "none" else rnd.choice([0, 1, 2, 3]))
             ops.append(["await", shape, [rnd.choice(["item", "item", "task", "const"]) for _ in range(k)]])
         else:
             inner = make_body(rnd, allow_nested=False)
@@ -115,6 +115,10 @@ def build(ctx):
                     yield fs[0]
                 elif op[1] == "list":
                     yield fs
+                elif op[1] == "dict":
+                    yield dict(enumerate(fs))
+                elif op[1] == "none":
+                    yield None
                 else:
                     yield tuple(fs)
             else:
@@ -128,6 +132,14 @@ def build(ctx):
                 fs = [fut(k) for k in op[2]]
                 if op[1] == "one":
                     got = yield fs[0]
+                elif op[1] == "none":
+                    got = yield None
+                    if got is not None:
+                        ctx.bad_resume = ("None", repr(got)[:60])
+                elif op[1] == "dict":
+                    got = yield dict(enumerate(fs))
+                    if not (type(got) is dict and sorted(got) == list(range(len(fs)))):
+                        ctx.bad_resume = ("dict", repr(got)[:60])
                 elif op[1] == "list":
                     got = yield fs
                     if not (isinstance(got, list) and len(got) == len(fs)):
